@@ -59,6 +59,15 @@ func c16Arrays(g *hermes.GlobalVarsMain, m int) jobj {
 		"ndir": hxs(g.NDIR[:m]), "nh4n": hxs(g.NH4N[:m]), "nsas": hxs(g.NSAS[:m]), "nlas": hxs(g.NLAS[:m])}
 }
 
+func c16Project(line string) string {
+	for _, t := range splitArgs(line) {
+		if len(t) > 8 && t[:8] == "project=" {
+			return t[8:]
+		}
+	}
+	return ""
+}
+
 // c16pick: deterministic 1-in-n sampling of days
 func c16pick(lineNo, zeit, n int) bool {
 	return (uint32(zeit)*2654435761+uint32(lineNo)*40503)%uint32(n) == 0
@@ -84,6 +93,9 @@ func c16Line(work, line string, lineNo, slots int) {
 		preN               hermes.NitroSharedVars
 		havePre            bool
 		ztdgK              int
+		skipG              hermes.GlobalVarsMain
+		skipN              hermes.NitroSharedVars
+		haveSkip           bool
 		last               jobj
 		days               int
 	)
@@ -103,7 +115,7 @@ func c16Line(work, line string, lineNo, slots int) {
 			if g.AUTOIRRI {
 				fired := g.NBR != nbrEnd
 				inWin := g.SAAT[k] > 0 && zeit > g.SAAT[k] && g.INTWICK.Num >= g.IRRST1[k] && g.INTWICK.Num < g.IRRST2[k]+1
-				if fired || (inWin && c16pick(lineNo, zeit, 9)) || c16pick(lineNo, zeit, 70) {
+				if fired || (inWin && c16pick(lineNo, zeit, 20)) || c16pick(lineNo, zeit, 90) {
 					// the state the decision of run.go:415-447 was taken on (rain of the day before any irrigation was added)
 					nl := g.N
 					if nl > 12 {
@@ -165,7 +177,7 @@ func c16Line(work, line string, lineNo, slots int) {
 			if subd == 1 && haveW && k == akfW {
 				called := g.AKF.Num > 1 && saW > 0 && zeit >= saW && zeit <= e20
 				changed := g.ERNTE[k] != e0 || g.ERNTE2[k] != e20 || g.SAAT[k+1] != ns0 || g.SAAT2[k+1] != ns20
-				if changed || (g.AUTOHAR && called && e0 == 0 && (zeit >= e20-2 || (g.INTWICK.Index >= 2 && c16pick(lineNo, zeit, 5)))) {
+				if changed || (g.AUTOHAR && called && e0 == 0 && (zeit >= e20-2 || (g.INTWICK.Index >= 2 && c16pick(lineNo, zeit, 8)))) {
 					o := jobj{"k": "hdec", "line": lineNo, "zeit": zeit, "akf": k, "called": called,
 						"e": []int{e0, e20, g.ERNTE[k], g.ERNTE2[k]}, "next": []int{ns0, ns20, g.SAAT[k+1], g.SAAT2[k+1]}}
 					if henv != nil {
@@ -176,6 +188,10 @@ func c16Line(work, line string, lineNo, slots int) {
 			}
 			akfN, ztdgK = k, g.ZTDG[k]
 			afHave, havePre = false, false
+			haveSkip = false
+			if subd == 1 && k >= 1 && zeit == g.ERNTE[k] && g.AUTOMAN && g.SAAT2[k+1] <= zeit && g.ODU[k] == 1 && g.ORGTIME[k] == "H" {
+				skipG, skipN, haveSkip = *g, *n, true
+			}
 			if g.AUTOFERT && subd == 1 {
 				t5 := make([]float64, 5)
 				if ti >= 4 {
@@ -225,12 +241,30 @@ func c16Line(work, line string, lineNo, slots int) {
 				o := jobj{"k": "harv", "line": lineNo, "zeit": zeit, "subd": subd, "akf": kk, "adv": g.AKF.Index - kk,
 					"org_h": g.ODU[kk] == 1 && g.ORGTIME[kk] == "H", "orgdoy": g.ORGDOY[kk], "saat2_next": g.SAAT2[kk+1], "automan": g.AUTOMAN,
 					"ztdg_before": ztdgK, "ztdg_after": g.ZTDG[kk], "einte_next": g.EINTE[g.NTIL.Index+1]}
+				if haveSkip && g.AKF.Index-kk == 2 {
+					// crop skip: re-run the harvest call on a copy of the pre-state in which the next entry's window is still
+					// open (no skip); the skip must add exactly NLAS[k] to NAOS[0] and NDIR[k] to DSUMM and leave NFOS[0] alone
+					gg, ll := skipG, skipN
+					gg.SAAT2[kk+1] = zeit + 1
+					if c10Mute(&gg) {
+						var ln hermes.NitroBBBSharedVars
+						var out hermes.CropOutputVars
+						hp := hermes.NewHermesFilePath(work, c16Project(line), "0", "", "")
+						_, err := hermes.Nitro(wdt, subd, zeit, &gg, &ll, &ln, &hp, &out)
+						if err == nil && gg.AKF.Index-kk == 1 {
+							o["skip"] = jobj{"noskip": []string{hx(gg.NAOS[0]), hx(gg.DSUMM), hx(gg.NFOS[0])}, "real": []string{hx(g.NAOS[0]), hx(g.DSUMM), hx(g.NFOS[0])},
+								"pay": []string{hx(g.NSAS[kk]), hx(g.NLAS[kk]), hx(g.NDIR[kk])}}
+						} else {
+							o["skip"] = jobj{"error": true}
+						}
+					}
+				}
 				emit(o)
 			} else if afHave {
 				changed := !c10same(g.NFERTSIM, afNfert) || !c10same(g.DSUMM, afDsumm) || g.ZTDG[k] != afZtdg ||
 					!c10same(g.NDOY1[k], afNdoy[0]) || !c10same(g.NDOY2[k], afNdoy[1]) || !c10same(g.NDOY3[k], afNdoy[2])
 				gate := g.SAAT[k] > 0 && zeit >= g.SAAT[k]
-				if changed || hFire || sFire || (gate && c16pick(lineNo, zeit, 14)) || c16pick(lineNo, zeit, 90) {
+				if changed || hFire || sFire || (gate && c16pick(lineNo, zeit, 25)) || c16pick(lineNo, zeit, 120) {
 					afPre["post"] = []string{hx(g.DSUMM), hx(g.NFERTSIM), hx(g.NDOY1[k]), hx(g.NDOY2[k]), hx(g.NDOY3[k])}
 					afPre["ztdg_post"] = g.ZTDG[k]
 					afPre["h_fire"], afPre["s_fire"] = hFire, sFire
